@@ -21,10 +21,19 @@
 //!     * Create / Upgrade(both purposes) / Upload (proof sets of 0..3 nodes) / Blob
 //!       transactions carrying predicate inputs, with and without precomputed metadata,
 //!       once per predicate input in PREDICATE context (verification / estimation).
+//!     * REUSED INSTANCES: every unit above is additionally prepared on ONE long-lived
+//!       interpreter per transaction type that is re-initialised over and over
+//!       (`init_script` / `init_predicate` on the same object): each script-typed unit
+//!       once right after a "rich" initialisation (call program left paused two calls deep
+//!       with contract inputs/outputs, owner policy, frames, receipts; or a predicate
+//!       context) and once right after a "poor" one (no contracts, outputs, policies;
+//!       unknown owner), polluters rotating; Create/Upgrade/Upload/Blob units in corpus
+//!       order and in reverse order. The sweep runs on a snapshot (clone) of the instance.
 //!   CASES per unit: EVERY GTF immediate 0..4095 x index register in
 //!     {0..=maxlen+1, 65535, 65536, 2^32, u64::MAX} (maxlen = longest list of the tx);
 //!     EVERY GM immediate 0..2^18-1 for the first unit of every (tx kind, context) class
-//!     (thorough: every 16th unit), a boundary set of ~140 immediates for the others.
+//!     (thorough: every 16th unit), a boundary set of ~140 immediates for the others and
+//!     for all reused-instance units.
 //!   One injected instruction per case on a clone of the prepared VM.
 //! Bound: the transaction alphabets above (listed in the evidence); one instruction.
 //!
@@ -1645,18 +1654,54 @@ impl UnitSpec {
     }
 }
 
+/// Position of a unit on a long-lived (re-initialised) interpreter instance: the
+/// deterministic chain `chain` of tier `thorough`, event number `pos` (see `ScriptChain`
+/// and `other_chain`). Replay re-runs the whole chain prefix on one instance.
+#[derive(Clone, Debug, PartialEq, Eq)]
+struct Reuse {
+    thorough: bool,
+    chain: String,
+    pos: usize,
+    /// what was initialised on the same instance immediately before (for the report)
+    after: String,
+}
+
+impl Reuse {
+    fn to_json(&self) -> Value {
+        json!({"thorough": self.thorough, "chain": self.chain, "pos": self.pos, "after": self.after})
+    }
+}
+
 struct Unit {
     spec: UnitSpec,
     runner: Box<dyn Runner>,
     lay: Lay,
     ctx: CtxKind,
+    /// None: prepared on a fresh interpreter
+    reuse: Option<Reuse>,
+}
+
+impl Unit {
+    fn describe(&self) -> String {
+        match &self.reuse {
+            None => self.spec.describe(),
+            Some(r) => format!(
+                "{} / REUSED interpreter instance (chain '{}' event {}, previously initialised with: {})",
+                self.spec.describe(),
+                r.chain,
+                r.pos,
+                r.after
+            ),
+        }
+    }
 }
 
 fn interpreter_params() -> InterpreterParams {
     InterpreterParams::new(GAS_PRICE, &params())
 }
 
-fn predicate_holder<Tx>(tx: Tx, idx: usize, estimation: bool) -> Result<Holder<Tx>, String>
+/// (Re-)initialise `vm` for the predicate of input `idx` of `tx`.
+fn prepare_pred_on<Tx>(vm: &mut VmT<Tx>, tx: Tx, idx: usize, estimation: bool) -> Result<(), String>
 where
     Tx: ExecutableTransaction + field::Inputs,
 {
@@ -1668,9 +1713,84 @@ where
     } else {
         Context::PredicateVerification { program }
     };
-    let mut vm: VmT<Tx> = Interpreter::with_storage(MemoryInstance::new(), MemoryStorage::default(), interpreter_params());
-    vm.init_predicate(context, tx, GAS).map_err(|e| format!("init_predicate: {e:?}"))?;
+    vm.init_predicate(context, tx, GAS).map_err(|e| format!("init_predicate: {e:?}"))
+}
+
+fn new_vm<Tx>(storage: MemoryStorage) -> VmT<Tx>
+where
+    Tx: ExecutableTransaction,
+{
+    Interpreter::with_storage(MemoryInstance::new(), storage, interpreter_params())
+}
+
+fn predicate_holder<Tx>(tx: Tx, idx: usize, estimation: bool) -> Result<Holder<Tx>, String>
+where
+    Tx: ExecutableTransaction + field::Inputs,
+{
+    let mut vm: VmT<Tx> = new_vm(MemoryStorage::default());
+    prepare_pred_on(&mut vm, tx, idx, estimation)?;
     Ok(Holder { vm, predicate: true })
+}
+
+/// Storage holding the call-program contracts: input slots 0 and 1 carry contract A's
+/// code, slot 2 contract B's (matches every spec of `internal_specs`).
+fn contract_storage() -> Result<MemoryStorage, String> {
+    let mut storage = MemoryStorage::default();
+    let (_, code_a, code_b) = call_program();
+    for (slot, code) in [(0usize, &code_a), (1, &code_a), (2, &code_b)] {
+        let bytes: Vec<u8> = code.iter().copied().collect();
+        storage
+            .deploy_contract_with_id(&[], &bytes, &contract_id_of_slot(slot))
+            .map_err(|e| format!("deploy: {e:?}"))?;
+    }
+    storage.commit();
+    storage.persist();
+    Ok(storage)
+}
+
+/// (Re-)initialise `vm` with the script transaction `s` in context `ctx` (for the
+/// internal contexts the call program is stepped into the contract). Returns the
+/// context and whether instructions run in predicate mode.
+fn prepare_script_on(vm: &mut VmT<Script>, s: &ScriptSpec, ctx: &SCtx) -> Result<(CtxKind, bool), String> {
+    let built = build_script_tx(s);
+    let checked = built
+        .tx
+        .clone()
+        .into_checked_basic(BlockHeight::new(HEIGHT), &params())
+        .map_err(|e| format!("script transaction fails basic checks: {e:?} ({})", s.describe()))?;
+    if let SCtx::Pred(i) = ctx {
+        prepare_pred_on(vm, checked.transaction().clone(), *i, false)?;
+        return Ok((CtxKind::Predicate { idx: *i }, true))
+    }
+    vm.init_script(checked.test_into_ready()).map_err(|e| format!("init_script: {e:?}"))?;
+    let steps = match ctx {
+        SCtx::Script => 0,
+        SCtx::InternalA => 4,
+        _ => 5,
+    };
+    for k in 0..steps {
+        let st = classify(guard::catch_any(|| vm.execute::<false>()));
+        if st != Step::Proceed {
+            return Err(format!("call program step {k}: {}", st.label()))
+        }
+    }
+    let depth = vm.verif_call_stack().len();
+    let kind = match ctx {
+        SCtx::Script => CtxKind::Script,
+        SCtx::InternalA => {
+            if depth != 1 {
+                return Err(format!("expected call depth 1, got {depth}"))
+            }
+            CtxKind::Internal { caller: None }
+        }
+        _ => {
+            if depth != 2 {
+                return Err(format!("expected call depth 2, got {depth}"))
+            }
+            CtxKind::Internal { caller: Some(*built.contracts[0]) }
+        }
+    };
+    Ok((kind, false))
 }
 
 fn predicate_inputs(inputs: &[Input]) -> Vec<usize> {
@@ -1715,63 +1835,12 @@ fn units_of_other(kind: usize, variant: usize) -> Vec<UnitSpec> {
 }
 
 fn build_unit(spec: &UnitSpec) -> Result<Unit, String> {
-    let p = params();
     let (runner, ctx): (Box<dyn Runner>, CtxKind) = match spec {
         UnitSpec::Script { spec: s, ctx } => {
-            let built = build_script_tx(s);
-            let checked = built
-                .tx
-                .clone()
-                .into_checked_basic(BlockHeight::new(HEIGHT), &p)
-                .map_err(|e| format!("script transaction fails basic checks: {e:?} ({})", s.describe()))?;
-            match ctx {
-                SCtx::Pred(i) => {
-                    let tx = checked.transaction().clone();
-                    (Box::new(predicate_holder(tx, *i, false)?), CtxKind::Predicate { idx: *i })
-                }
-                SCtx::Script | SCtx::InternalA | SCtx::InternalB => {
-                    let mut storage = MemoryStorage::default();
-                    if s.internal {
-                        let (_, code_a, code_b) = call_program();
-                        for (id, code) in [(built.contracts[0], code_a), (built.contracts[1], code_b)] {
-                            let bytes: Vec<u8> = code.into_iter().collect();
-                            storage.deploy_contract_with_id(&[], &bytes, &id).map_err(|e| format!("deploy: {e:?}"))?;
-                        }
-                        storage.commit();
-                        storage.persist();
-                    }
-                    let mut vm: VmT<Script> = Interpreter::with_storage(MemoryInstance::new(), storage, interpreter_params());
-                    vm.init_script(checked.test_into_ready()).map_err(|e| format!("init_script: {e:?}"))?;
-                    let steps = match ctx {
-                        SCtx::Script => 0,
-                        SCtx::InternalA => 4,
-                        _ => 5,
-                    };
-                    for k in 0..steps {
-                        let st = classify(guard::catch_any(|| vm.execute::<false>()));
-                        if st != Step::Proceed {
-                            return Err(format!("call program step {k}: {}", st.label()))
-                        }
-                    }
-                    let depth = vm.verif_call_stack().len();
-                    let kind = match ctx {
-                        SCtx::Script => CtxKind::Script,
-                        SCtx::InternalA => {
-                            if depth != 1 {
-                                return Err(format!("expected call depth 1, got {depth}"))
-                            }
-                            CtxKind::Internal { caller: None }
-                        }
-                        _ => {
-                            if depth != 2 {
-                                return Err(format!("expected call depth 2, got {depth}"))
-                            }
-                            CtxKind::Internal { caller: Some(*built.contracts[0]) }
-                        }
-                    };
-                    (Box::new(Holder { vm, predicate: false }), kind)
-                }
-            }
+            let storage = if s.internal { contract_storage()? } else { MemoryStorage::default() };
+            let mut vm: VmT<Script> = new_vm(storage);
+            let (kind, predicate) = prepare_script_on(&mut vm, s, ctx)?;
+            (Box::new(Holder { vm, predicate }), kind)
         }
         UnitSpec::Other { kind, variant, precompute, pidx } => {
             let chain = ChainId::new(CHAIN_ID);
@@ -1807,7 +1876,193 @@ fn build_unit(spec: &UnitSpec) -> Result<Unit, String> {
         }
     };
     let lay = layout(&runner.tx());
-    Ok(Unit { spec: spec.clone(), runner, lay, ctx })
+    Ok(Unit { spec: spec.clone(), runner, lay, ctx, reuse: None })
+}
+
+// ------------------------------------------------------------------ reused instances
+
+/// All script-typed unit specs of the tier, in corpus order.
+fn script_units(thorough: bool) -> Vec<UnitSpec> {
+    let (scripts, _) = script_corpus(thorough);
+    scripts.iter().flat_map(units_of_script).collect()
+}
+
+fn other_units(kind: usize) -> Vec<UnitSpec> {
+    (0..OTHER_VARIANTS[kind]).flat_map(|v| units_of_other(kind, v)).collect()
+}
+
+/// "Rich" initialisations used to dirty a long-lived instance: call programs left paused
+/// two calls deep (contract inputs at indices 1,2 / 0,2, contract outputs, owner policy,
+/// frames, receipts, internal context) and a predicate context of the rich base point
+/// (contract input at index 3).
+fn rich_polluters() -> Vec<(ScriptSpec, SCtx)> {
+    let i = internal_specs();
+    vec![
+        (i[0].clone(), SCtx::InternalB),
+        (i[1].clone(), SCtx::InternalB),
+        (base_specs()[1].clone(), SCtx::Pred(1)),
+    ]
+}
+
+/// "Poor" initialisations: no contracts, no outputs, no optional policies, unknown owner
+/// (script context) / a lone message-coin predicate (predicate context).
+fn poor_polluters() -> Vec<(ScriptSpec, SCtx)> {
+    let b0 = base_specs()[0].clone();
+    vec![
+        (ScriptSpec { inputs: vec![0, 3], ..b0.clone() }, SCtx::Script),
+        (ScriptSpec { inputs: vec![4], ..b0 }, SCtx::Pred(0)),
+    ]
+}
+
+/// ONE interpreter instance that is re-initialised over and over. Event `pos` (k = pos/2):
+/// initialise with a rich (pos even) or poor (pos odd) polluter, then with unit k, and
+/// hand out a snapshot (clone) of the instance for the sweep. So every unit is observed
+/// on the reused instance once right after a transaction WITH contracts / policies /
+/// predicates / call frames and once right after one WITHOUT, and the polluters
+/// themselves follow every corpus transaction.
+struct ScriptChain {
+    vm: VmT<Script>,
+    units: Vec<UnitSpec>,
+    rich: Vec<(ScriptSpec, SCtx)>,
+    poor: Vec<(ScriptSpec, SCtx)>,
+    thorough: bool,
+    pos: usize,
+}
+
+impl ScriptChain {
+    fn new(thorough: bool) -> Result<ScriptChain, String> {
+        Ok(ScriptChain {
+            vm: new_vm(contract_storage()?),
+            units: script_units(thorough),
+            rich: rich_polluters(),
+            poor: poor_polluters(),
+            thorough,
+            pos: 0,
+        })
+    }
+
+    fn len(&self) -> usize {
+        2 * self.units.len()
+    }
+
+    fn next(&mut self) -> Option<Result<Unit, String>> {
+        if self.pos >= self.len() {
+            return None
+        }
+        let pos = self.pos;
+        self.pos += 1;
+        let k = pos / 2;
+        let (pspec, pctx) = if pos % 2 == 0 {
+            self.rich[k % self.rich.len()].clone()
+        } else {
+            self.poor[k % self.poor.len()].clone()
+        };
+        let UnitSpec::Script { spec, ctx } = self.units[k].clone() else {
+            return Some(Err("script chain holds a non-script unit".into()))
+        };
+        let r = (|| -> Result<Unit, String> {
+            prepare_script_on(&mut self.vm, &pspec, &pctx)?;
+            let (kind, predicate) = prepare_script_on(&mut self.vm, &spec, &ctx)?;
+            let mut snap = self.vm.clone();
+            if !spec.internal {
+                // the deployed contracts are irrelevant to GTF/GM; dropping them from the
+                // snapshot keeps the per-case clone cheap
+                *snap.as_mut() = MemoryStorage::default();
+            }
+            let runner: Box<dyn Runner> = Box::new(Holder { vm: snap, predicate });
+            let lay = layout(&runner.tx());
+            Ok(Unit {
+                spec: self.units[k].clone(),
+                runner,
+                lay,
+                ctx: kind,
+                reuse: Some(Reuse {
+                    thorough: self.thorough,
+                    chain: "script".into(),
+                    pos,
+                    after: format!("{} / context {:?}", pspec.describe(), pctx),
+                }),
+            })
+        })();
+        Some(r)
+    }
+}
+
+/// The reused-instance chain of a non-script kind: ONE interpreter of that transaction
+/// type, `init_predicate` for every unit of the kind in corpus order and then in reverse
+/// order (2n events); a snapshot after every initialisation.
+fn other_chain(kind: usize) -> Result<Vec<Unit>, String> {
+    fn run<Tx>(kind: usize, pick: fn(Transaction) -> Option<Tx>) -> Result<Vec<Unit>, String>
+    where
+        Tx: ExecutableTransaction + field::Inputs + Cacheable + Into<Transaction> + Send + Sync + 'static,
+    {
+        let list = other_units(kind);
+        let n = list.len();
+        let mut vm: VmT<Tx> = new_vm(MemoryStorage::default());
+        let mut out = vec![];
+        let mut previous = "nothing (first use)".to_string();
+        for pos in 0..2 * n {
+            let us = &list[if pos < n { pos } else { 2 * n - 1 - pos }];
+            let UnitSpec::Other { kind: k, variant, precompute, pidx } = us else {
+                return Err("other chain holds a script unit".into())
+            };
+            let mut tx = pick(build_other(*k, *variant)).ok_or("transaction kind mismatch")?;
+            if *precompute {
+                tx.precompute(&ChainId::new(CHAIN_ID)).map_err(|e| format!("precompute: {e:?}"))?;
+            }
+            prepare_pred_on(&mut vm, tx, *pidx, !*precompute)?;
+            let runner: Box<dyn Runner> = Box::new(Holder { vm: vm.clone(), predicate: true });
+            let lay = layout(&runner.tx());
+            out.push(Unit {
+                spec: us.clone(),
+                runner,
+                lay,
+                ctx: CtxKind::Predicate { idx: *pidx },
+                reuse: Some(Reuse {
+                    thorough: false,
+                    chain: OTHER_KINDS[kind].to_string(),
+                    pos,
+                    after: previous.clone(),
+                }),
+            });
+            previous = us.describe();
+        }
+        Ok(out)
+    }
+    match kind {
+        0 => run(kind, |t| match t { Transaction::Create(x) => Some(x), _ => None }),
+        1 => run(kind, |t| match t { Transaction::Upgrade(x) => Some(x), _ => None }),
+        2 => run(kind, |t| match t { Transaction::Upload(x) => Some(x), _ => None }),
+        3 => run(kind, |t| match t { Transaction::Blob(x) => Some(x), _ => None }),
+        _ => Err("other kind out of range".into()),
+    }
+}
+
+/// Rebuild the unit a recorded case ran on.
+fn unit_for_case(us: &UnitSpec, reuse: &Option<Reuse>) -> Result<Unit, String> {
+    let Some(r) = reuse else { return build_unit(us) };
+    let u = if r.chain == "script" {
+        let mut c = ScriptChain::new(r.thorough)?;
+        let mut last = None;
+        while c.pos <= r.pos {
+            match c.next() {
+                Some(x) => last = Some(x?),
+                None => break,
+            }
+        }
+        last.ok_or("chain position out of range")?
+    } else {
+        let kind = OTHER_KINDS.iter().position(|k| *k == r.chain).ok_or("unknown chain")?;
+        let mut v = other_chain(kind)?;
+        if r.pos >= v.len() {
+            return Err("chain position out of range".into())
+        }
+        v.swap_remove(r.pos)
+    };
+    if &u.spec != us {
+        return Err(format!("chain position {} now holds another unit ({}); the corpus changed", r.pos, u.spec.describe()))
+    }
+    Ok(u)
 }
 
 // ------------------------------------------------------------------ cases
@@ -1819,17 +2074,21 @@ enum Op {
     Gm { imm: u32 },
 }
 
-fn case_json(u: &UnitSpec, op: &Op) -> Value {
-    match op {
+fn case_json(u: &UnitSpec, reuse: &Option<Reuse>, op: &Op) -> Value {
+    let mut v = match op {
         Op::Image => json!({"unit": u.to_json(), "op": "IMAGE"}),
         Op::Gtf { imm, b } => json!({"unit": u.to_json(), "op": "GTF", "imm": imm, "b": b.to_string(),
                                       "selector": gtf_name(*imm).unwrap_or("undefined")}),
         Op::Gm { imm } => json!({"unit": u.to_json(), "op": "GM", "imm": imm,
                                   "selector": gm_name(*imm).unwrap_or("undefined")}),
+    };
+    if let Some(r) = reuse {
+        v["reuse"] = r.to_json();
     }
+    v
 }
 
-fn case_from_json(v: &Value) -> (UnitSpec, Op) {
+fn case_from_json(v: &Value) -> (UnitSpec, Option<Reuse>, Op) {
     let u = UnitSpec::from_json(&v["unit"]);
     let op = match v["op"].as_str().expect("op") {
         "IMAGE" => Op::Image,
@@ -1839,7 +2098,13 @@ fn case_from_json(v: &Value) -> (UnitSpec, Op) {
         },
         _ => Op::Gm { imm: v["imm"].as_u64().expect("imm") as u32 },
     };
-    (u, op)
+    let reuse = v.get("reuse").filter(|r| !r.is_null()).map(|r| Reuse {
+        thorough: r["thorough"].as_bool().expect("thorough"),
+        chain: r["chain"].as_str().expect("chain").to_string(),
+        pos: r["pos"].as_u64().expect("pos") as usize,
+        after: r["after"].as_str().unwrap_or("").to_string(),
+    });
+    (u, reuse, op)
 }
 
 struct Verdict {
@@ -1894,7 +2159,7 @@ fn run_op(u: &Unit, op: &Op) -> Verdict {
                 let name = gtf_name(*imm).unwrap_or("undefined_imm");
                 (
                     format!("C05:GTF:{name}:{aspect}"),
-                    format!("GTF imm={imm:#05x} ({name}) index={b}: {what} [{}]", u.spec.describe()),
+                    format!("GTF imm={imm:#05x} ({name}) index={b}: {what} [{}]", u.describe()),
                 )
             });
             Verdict { step, dest, exp: Some(exp), bad }
@@ -1906,7 +2171,7 @@ fn run_op(u: &Unit, op: &Op) -> Verdict {
                 let name = gm_name(*imm).unwrap_or("undefined_imm");
                 (
                     format!("C05:GM:{name}:{aspect}"),
-                    format!("GM imm={imm:#07x} ({name}): {what} [{}]", u.spec.describe()),
+                    format!("GM imm={imm:#07x} ({name}): {what} [{}]", u.describe()),
                 )
             });
             Verdict { step, dest, exp: Some(exp), bad }
@@ -1984,8 +2249,8 @@ impl Acc {
         self.outcomes[class * OUT_W + code] += 1;
     }
 
-    fn viol(&mut self, u: &UnitSpec, op: &Op, bad: (String, String)) {
-        let e = self.viols.entry(bad.0).or_insert_with(|| (case_json(u, op), bad.1, 0));
+    fn viol(&mut self, u: &Unit, op: &Op, bad: (String, String)) {
+        let e = self.viols.entry(bad.0).or_insert_with(|| (case_json(&u.spec, &u.reuse, op), bad.1, 0));
         e.2 += 1;
     }
 }
@@ -2009,12 +2274,18 @@ fn eval_unit(spec: &UnitSpec, gm_full: bool, acc: &mut Acc) {
             return
         }
     };
-    *acc.units.entry(format!("{}:{}", u.lay.kind, u.ctx.name())).or_insert(0) += 1;
+    sweep_unit(&u, gm_full, acc);
+}
+
+/// Image check + every GTF immediate x index set + the GM sweep on one prepared unit.
+fn sweep_unit(u: &Unit, gm_full: bool, acc: &mut Acc) {
+    let mode = if u.reuse.is_some() { "reused:" } else { "" };
+    *acc.units.entry(format!("{mode}{}:{}", u.lay.kind, u.ctx.name())).or_insert(0) += 1;
     // image
-    let v = run_op(&u, &Op::Image);
+    let v = run_op(u, &Op::Image);
     acc.n += 1;
     if let Some(bad) = v.bad {
-        acc.viol(spec, &Op::Image, bad);
+        acc.viol(u, &Op::Image, bad);
     }
     // GTF: every immediate x index set
     let idxs = index_set(&u.lay);
@@ -2029,7 +2300,7 @@ fn eval_unit(spec: &UnitSpec, gm_full: bool, acc: &mut Acc) {
         let defined = gtf_name(imm).is_some();
         for &b in &idxs {
             let op = Op::Gtf { imm, b };
-            let v = run_op(&u, &op);
+            let v = run_op(u, &op);
             acc.note(if defined { 0 } else { 1 }, &v);
             if defined {
                 let e = acc.gtf_sel.entry(imm).or_insert([0, 0]);
@@ -2047,7 +2318,7 @@ fn eval_unit(spec: &UnitSpec, gm_full: bool, acc: &mut Acc) {
                 }
             }
             if let Some(bad) = v.bad {
-                acc.viol(spec, &op, bad);
+                acc.viol(u, &op, bad);
             }
         }
     }
@@ -2060,7 +2331,7 @@ fn eval_unit(spec: &UnitSpec, gm_full: bool, acc: &mut Acc) {
     };
     for imm in imms {
         let op = Op::Gm { imm };
-        let v = run_op(&u, &op);
+        let v = run_op(u, &op);
         let name = gm_name(imm);
         acc.note(if name.is_some() { 2 } else { 3 }, &v);
         if let Some(name) = name {
@@ -2073,7 +2344,7 @@ fn eval_unit(spec: &UnitSpec, gm_full: bool, acc: &mut Acc) {
             }
         }
         if let Some(bad) = v.bad {
-            acc.viol(spec, &op, bad);
+            acc.viol(u, &op, bad);
         }
     }
 }
@@ -2245,6 +2516,36 @@ fn sanity() {
     }
 }
 
+fn merge_acc(ctx: &Ctx, total: &mut Acc, acc: Acc) {
+    total.n += acc.n;
+    for (k, v) in acc.outcomes.iter().enumerate() {
+        total.outcomes[k] += v;
+    }
+    for (k, v) in acc.gtf_sel {
+        let e = total.gtf_sel.entry(k).or_insert([0, 0]);
+        e[0] += v[0];
+        e[1] += v[1];
+    }
+    for (k, v) in acc.gm_sel {
+        let e = total.gm_sel.entry(k).or_insert([0, 0]);
+        e[0] += v[0];
+        e[1] += v[1];
+    }
+    ctx.fps_merge(acc.fps);
+    for (key, (case, what, cnt)) in acc.viols {
+        ctx.violation(key.clone(), what.clone(), case.clone());
+        total.viols.entry(key).or_insert((case, what, 0)).2 += cnt;
+    }
+    for (k, v) in acc.units {
+        *total.units.entry(k).or_insert(0) += v;
+    }
+    for (k, v) in acc.dontcare_taken {
+        *total.dontcare_taken.entry(k).or_insert(0) += v;
+    }
+    total.gm_full_units += acc.gm_full_units;
+    total.build_errors.extend(acc.build_errors);
+}
+
 fn explore(ctx: &Ctx) {
     sanity();
     let thorough = ctx.thorough();
@@ -2344,39 +2645,74 @@ fn explore(ctx: &Ctx) {
             1,
             Acc::new,
             |i, acc: &mut Acc| eval_unit(&units[lo + i as usize], gm_full[lo + i as usize], acc),
-            |acc| {
-                total.n += acc.n;
-                for (k, v) in acc.outcomes.iter().enumerate() {
-                    total.outcomes[k] += v;
-                }
-                for (k, v) in acc.gtf_sel {
-                    let e = total.gtf_sel.entry(k).or_insert([0, 0]);
-                    e[0] += v[0];
-                    e[1] += v[1];
-                }
-                for (k, v) in acc.gm_sel {
-                    let e = total.gm_sel.entry(k).or_insert([0, 0]);
-                    e[0] += v[0];
-                    e[1] += v[1];
-                }
-                ctx.fps_merge(acc.fps);
-                for (key, (case, what, cnt)) in acc.viols {
-                    ctx.violation(key.clone(), what.clone(), case.clone());
-                    total.viols.entry(key).or_insert((case, what, 0)).2 += cnt;
-                }
-                for (k, v) in acc.units {
-                    *total.units.entry(k).or_insert(0) += v;
-                }
-                for (k, v) in acc.dontcare_taken {
-                    *total.dontcare_taken.entry(k).or_insert(0) += v;
-                }
-                total.gm_full_units += acc.gm_full_units;
-                total.build_errors.extend(acc.build_errors);
-            },
+            |acc| merge_acc(ctx, &mut total, acc),
         );
         done_units = hi;
         lo = hi;
     }
+    // REUSED INSTANCES: the same sweep (all 4096 GTF immediates x index set, image check,
+    // boundary GM set) on snapshots of long-lived, repeatedly re-initialised interpreters
+    let mut reused_done = 0usize;
+    let mut reused_total = 0usize;
+    let mut sweep_slice = |batch: Vec<Unit>, total: &mut Acc| {
+        space::par_chunks(
+            batch.len() as u64,
+            1,
+            Acc::new,
+            |i, acc: &mut Acc| sweep_unit(&batch[i as usize], false, acc),
+            |acc| merge_acc(ctx, total, acc),
+        );
+    };
+    for kind in 0..4 {
+        match other_chain(kind) {
+            Ok(batch) => {
+                reused_total += batch.len();
+                reused_done += batch.len();
+                sweep_slice(batch, &mut total);
+            }
+            Err(e) => total.build_errors.push(format!("reused chain {}: {e}", OTHER_KINDS[kind])),
+        }
+    }
+    match ScriptChain::new(thorough) {
+        Ok(mut chain) => {
+            reused_total += chain.len();
+            'chain: loop {
+                if ctx.out_of_time() {
+                    ctx.cap(format!("time budget used up after {} of {} reused-instance script events", chain.pos, chain.len()));
+                    break
+                }
+                let mut batch = vec![];
+                while batch.len() < SLICE {
+                    match chain.next() {
+                        Some(Ok(u)) => batch.push(u),
+                        Some(Err(e)) => {
+                            total.build_errors.push(format!("reused script chain event {}: {e}", chain.pos - 1));
+                            break 'chain
+                        }
+                        None => break,
+                    }
+                }
+                if batch.is_empty() {
+                    break
+                }
+                reused_done += batch.len();
+                sweep_slice(batch, &mut total);
+            }
+        }
+        Err(e) => total.build_errors.push(format!("reused script chain: {e}")),
+    }
+    ctx.set("reused_instance_units_total", json!(reused_total));
+    ctx.set("reused_instance_units_completed", json!(reused_done));
+    ctx.set(
+        "reused_instance_chains",
+        json!({
+            "script": "ONE Interpreter<_,_,Script>; event 2k: init rich polluter k%3 then unit k; event 2k+1: init poor polluter k%2 then unit k; snapshot swept after every unit initialisation",
+            "rich_polluters": rich_polluters().iter().map(|(s, c)| format!("{} / context {:?}", s.describe(), c)).collect::<Vec<_>>(),
+            "poor_polluters": poor_polluters().iter().map(|(s, c)| format!("{} / context {:?}", s.describe(), c)).collect::<Vec<_>>(),
+            "Create/Upgrade/Upload/Blob": "ONE interpreter per kind; init_predicate for every unit of the kind in corpus order, then in reverse order; snapshot swept after every initialisation",
+            "gm": "boundary immediate set only",
+        }),
+    );
     if !total.build_errors.is_empty() {
         // a corpus transaction that cannot be prepared is a harness defect, not a verdict
         panic!("{} corpus units could not be prepared, first: {}", total.build_errors.len(), total.build_errors[0]);
@@ -2436,7 +2772,7 @@ fn explore(ctx: &Ctx) {
         let u = build_unit(&us).expect("sample unit");
         let v = run_op(&u, &op);
         ctx.sample(json!({
-            "case": case_json(&us, &op),
+            "case": case_json(&us, &None, &op),
             "unit": us.describe(),
             "context": u.ctx.name(),
             "observed": {"step": v.step.label(), "dest": format!("{:#x}", v.dest),
@@ -2449,11 +2785,11 @@ fn explore(ctx: &Ctx) {
 }
 
 fn replay(case: &Value, ctx: &Ctx) {
-    let (us, op) = case_from_json(case);
-    let u = build_unit(&us).expect("replay unit must build");
+    let (us, reuse, op) = case_from_json(case);
+    let u = unit_for_case(&us, &reuse).expect("replay unit must build");
     let v = run_op(&u, &op);
     if let Some((key, what)) = v.bad {
-        ctx.violation(key, what, case_json(&us, &op));
+        ctx.violation(key, what, case_json(&us, &u.reuse, &op));
     }
 }
 
